@@ -61,7 +61,10 @@ def coq_targets(cfg):
                 t.append(f)
     except OSError:
         pass
-    return t + [x for x in cfg.get("coq_targets", []) if x not in t]
+    t = t + [x for x in cfg.get("coq_targets", []) if x not in t]
+    if os.path.exists(os.path.join(COQ, "Lib", "Origins.v")) and "Lib/Origins.vo" not in t:
+        t.append("Lib/Origins.vo")
+    return t
 
 
 def build_coq(log, cfg=None):
@@ -194,6 +197,39 @@ def run_consts(pid, log):
     failed = []
     for mm in re.finditer(r'\("((?:[^"]|"")*)", "((?:[^"]|"")*)", false\)', m.group(1)):
         failed.append({"name": "constant:" + mm.group(1), "detail": "the model's %s differs from the source: %s" % (mm.group(1), mm.group(2))})
+    return n, failed
+
+
+def run_origins(pid, log):
+    """Result-origin tie: for the API functions listed in spec/origins.json (which the models treat as
+    value-level functions) go2coq re-derives from the current source where every returned slice/pointer
+    comes from (fresh / nil / receiver / parameter / package variable / callee), what the function writes
+    and which package state it mentions; Coq compares the summary with the frozen, reviewed spec entry.
+    Static, syntactic, conservative: a tie by translation; the dynamic checks remain the judge."""
+    spec = os.path.join(ROOT, "spec", "origins.json")
+    if not os.path.exists(spec):
+        return 0, []
+    with open(spec) as f:
+        n = sum(1 for e in json.load(f) if pid in e.get("props", []))
+    if n == 0:
+        return 0, []
+    tool = os.path.join(HARNESS, "bin", "go2coq")
+    if not os.path.exists(tool):
+        sh(["go", "build", "-o", tool, "."], cwd=os.path.join(ROOT, "tools", "go2coq"), env=GOENV, timeout=600)
+    vf = os.path.join(GEN, "Origins_%s.v" % pid)
+    rc, out = sh([tool, "-origins", spec, "-prop", pid, "-repo", REPO, "-out", vf], cwd=ROOT, env=GOENV, timeout=600)
+    log.append(("go2coq -origins", rc, out[-3000:]))
+    if rc != 0:
+        return n, [{"name": "origin-tie: go2coq -origins failed", "detail": out[-600:]}]
+    rc, o = sh(["coqc", "-noglob", "-Q", COQ, "CSS", vf], cwd=COQ, timeout=600)
+    log.append(("origins " + vf, rc, o[-3000:]))
+    flat = " ".join(o.split())
+    m = re.search(r"FAILED = (\[.*?\]) : list", flat)
+    if rc != 0 or not m:
+        return n, [{"name": "origin-tie: Origins_%s.v does not compile" % pid, "detail": o[-800:]}]
+    failed = []
+    for mm in re.finditer(r'\("((?:[^"]|"")*)", "((?:[^"]|"")*)", false\)', m.group(1)):
+        failed.append({"name": "origin:" + mm.group(1), "detail": mm.group(2)[:900]})
     return n, failed
 
 
@@ -336,12 +372,14 @@ def main(argv):
             kept.append(g)
     gen_failed_all, gen_failed = gen_failed, kept
     # 3. correspondence
-    with ThreadPoolExecutor(max_workers=1) as cex:
+    with ThreadPoolExecutor(max_workers=2) as cex:
         cfut = cex.submit(run_consts, pid, log)
+        ofut = cex.submit(run_origins, pid, log)
         rep, herr = run_harness(cfg, seed, tier, log)
         n_const, const_failed = cfut.result()
-    n_gen += n_const
-    gen_failed = gen_failed + const_failed
+        n_orig, orig_failed = ofut.result()
+    n_gen += n_const + n_orig
+    gen_failed = gen_failed + const_failed + orig_failed
     mism = {}
     shard_errors = []
     shard_times = {}
@@ -399,7 +437,7 @@ def main(argv):
                     c = json.load(f)
                 m = re.search(r"(panic: .*|fatal error: .*|harness timed out)", herr)
                 unknown_fail.append({"case": -1, "site": c.get("site"), "input": c.get("input"),
-                                     "what": "%s -- the implementation %s" % (c.get("what"), m.group(1)[:300] if m else "crashed")})
+                                     "what": "%s -- the harness process died while running this input: %s (a panic in a goroutine started by the code under test cannot be recovered; the input is the one recorded before the call)" % (c.get("what"), m.group(1)[:300] if m else "crashed")})
             except (OSError, ValueError):
                 pass
     base = {"property": pid, "seed": seed, "tier": tier, "repo_head": sh("git -C %s rev-parse HEAD" % REPO)[1].strip()}
